@@ -1,2 +1,3 @@
 pub mod batch;
+pub mod miri;
 pub mod rng;
